@@ -540,6 +540,67 @@ def scen_restore_feedback(env, reaction):
         vloop.run(run())
 
 
+def scen_cleanup_event(env, kind, late_event):
+    """An event reaches a persistent block DURING the clean-up of a regular stop (the on_success event of an output
+    block's stop_data), after the block itself may have been stopped (set order: both orders explored).  What a restart
+    finds in the storage must still be a state the block can be restored to 'with its timer expiring at the same
+    absolute time as before': the state saved at the stop, or the state after that last event - never a timed state
+    that has lost its timer."""
+    from harness.simdrive import OrderedSet
+    from edzed import simulator
+    clock = WallClock()
+    with clock:
+        circ = fresh_circuit()
+        store = PickleStore({})
+        circ.set_persistent_data(store)
+        d0 = env.real('d0', 0, 50, lo_open=True)
+        t_stop = env.real('t_stop', 0, 60)
+        first = env.pick(['blk', 'of'], 'stopped_first')
+        calls = []
+        if kind == 'fsm':
+            TF = make_fsm_class(d0, calls)
+            blk = TF('blk', persistent=True)
+            arm = lambda: blk.event('arm', n=1)
+            timed_state = 'armed'
+        else:
+            blk = edzed.Timer('blk', t_on=d0, persistent=True, restartable=(late_event != 'start-refused'))
+            arm = lambda: blk.event('start')
+            timed_state = 'on'
+        et = {'poke': 'poke', 'disarm': 'disarm', 'start': 'start', 'start-refused': 'start', 'stop': 'stop'}[late_event]
+        edzed.OutputFunc('of', func=lambda v: None, stop_data={'value': 'OF-STOP'}, on_success=edzed.Event('blk', et), on_error=None)
+        res = {}
+
+        async def main():
+            loop = asyncio.get_running_loop()
+            asyncio.create_task(circ.run_forever())
+            await circ.wait_init()
+            arm()
+            res['expiry'] = clock.time() + d0
+            await asyncio.sleep(t_stop)
+            res['before'] = blk.get_state() if blk.is_initialized() else None
+            res['state_before'] = blk.state
+            await circ.shutdown()
+        OrderedSet.front = [first]
+        simulator.set = OrderedSet
+        try:
+            vloop.run(main())
+        finally:
+            del simulator.set
+            OrderedSet.front = []
+        saved = store.get(blk.key)
+        env.note('persistent-fsm-stopped-before-the-output-block' if first == 'blk' else 'output-block-stopped-first')
+        still_timed = res['state_before'] == timed_state
+        if still_timed:
+            env.note('timed-state-at-stop')
+        # a saved timed state always carries its timer
+        ok = saved is not None and not (saved[0] == timed_state and saved[1] is None)
+        env.check('saved-at-stop', ok, info=lambda: (first, late_event, res['before'], saved))
+        if still_timed and saved is not None and saved[0] == timed_state:
+            if late_event in ('poke', 'start-refused'):
+                # the late event is refused by the table / the condition: the timer is the one started before
+                env.check('saved-at-stop', state_eq(saved[1], res['expiry']), info=lambda: (saved, res['expiry']))
+
+
 # ---------------------------------------------------------------------------------------------
 # Timer and InputExp (restore of derived FSM blocks) - one event, restart
 
@@ -805,6 +866,10 @@ def shards(tier):
            {'name': 'failed start: unresolved name', 'scenario': 'scen_failed_start', 'params': {'kind': 'resolve'}},
            {'name': 'failed start: task fails at once', 'scenario': 'scen_failed_start', 'params': {'kind': 'task-fails-at-once'}},
            {'name': 'failed start: aborted at the first await', 'scenario': 'scen_failed_start', 'params': {'kind': 'abort-at-once'}}]
+    for kind, evs in (('fsm', ('poke', 'disarm')), ('timer', ('start', 'start-refused', 'stop'))):
+        for le in evs:
+            out.append({'name': f'event during the clean-up: {kind} {le}', 'scenario': 'scen_cleanup_event',
+                        'params': {'kind': kind, 'late_event': le}, 'cost': 3})
     for reaction in ('disarm', 'arm', 'arm-duration', 'poke', 'none'):
         out.append({'name': f'event during the restore: {reaction}', 'scenario': 'scen_restore_feedback',
                     'params': {'reaction': reaction}, 'cost': 3})
